@@ -41,6 +41,7 @@ var raceCorpus = []string{
 	`floor(//b/@x + 1)`, `string(//b/@x + 0)`, `concat('p=', //b/@x + 1, '|', -//b/@x)`, `ceiling(count(//c) div 2)`, `number(//b/@x * 2) > 1`,
 	`string((//b)[2]/@x)`, `count((//c)[1])`, `name((//*)[3])`, `concat(concat(//b/@x, '-'), normalize-space(' a '))`, `concat(normalize-space(//b), concat('x', 'y'))`,
 	`matches(string(//b[2]/@x), concat('^', //b[2]/@x, '$'))`, `replace(string(//b/@x), string(//b/@x), 'q')`, `substring-after(string(//b[3]/@x), '1')`,
+	`//éa/αβ`, `//*[@ü]`, `//中文[@属='值']`, `count(//καλημέρα | //привет)`, `//ひらがな/한글`, `//éa[αβ or ü]`,
 	`//b[count((c)[1]) = 1]`, `//*[string((*)[1]) = '']`, `//b[@x = 2 or c/b[1]]`, `sum((//b/@x)[position() < 3])`, `//b/@x[. > 1] | //c[1]`,
 }
 
@@ -163,6 +164,43 @@ func raceMain(args []string) {
 							fmt.Printf("MISMATCH\tconcurrent Compile failed: %v\n", err)
 							mu.Unlock()
 						}
+					}
+				}
+			}
+		}(gi)
+	}
+	wg.Wait()
+	// phase 3: all goroutines COMPILE at the same time: texts with non-ASCII names, digits and spaces,
+	// valid and invalid (Compile is a function of the text whatever other goroutines compile)
+	ctexts := []string{"//éa/αβ", "//*[@ü]", "//中文[@属='值']", "count(//καλημέρα | //привет)", "//ひらがな/한글", "//éa[αβ or ü]", "//a\u00a0b", "\u0661\u0662", "a\u2003=\u20031", "//α:β", "α:β", "//*[@ж > 1]",
+		"//ñ/following-sibling::ö", "//\u4e2d/\u6587/\u5b57", "\u0663 + 1", "a\u0085", "//x[contains(., 'é')]", "//a", "//b[1]", "concat('é', name(//ü))"}
+	// names whose runes agree in their low byte across blocks (Latin-1, Cyrillic, Katakana, CJK, Hangul):
+	// whatever small table a scanner keeps per rune, these keep evicting each other
+	for _, lo := range []rune{0xE9, 0xF1, 0xE0, 0xC9, 0xD1} {
+		for _, hi := range []rune{0x0000, 0x0400, 0x3000, 0x4E00, 0xAC00} {
+			ctexts = append(ctexts, "//"+string(hi+lo)+"/"+string(hi+lo)+string(0x4E00+lo), "//*[@"+string(hi+lo)+" = 1]")
+		}
+	}
+	var cwant []string
+	for _, t := range ctexts {
+		_, err := xpath.Compile(t)
+		cwant = append(cwant, fmt.Sprint(err == nil))
+	}
+	for gi := 0; gi < k; gi++ {
+		wg.Add(1)
+		go func(gi int) {
+			defer wg.Done()
+			for rep := 0; rep < 40*rounds; rep++ {
+				for i := range ctexts {
+					j := (i + gi*3 + rep) % len(ctexts)
+					_, err := xpath.Compile(ctexts[j])
+					if fmt.Sprint(err == nil) != cwant[j] {
+						mu.Lock()
+						bad++
+						if bad < 20 {
+							fmt.Printf("MISMATCH\tconcurrent Compile(%s) ok=%v, alone ok=%s\n", doc.Esc(ctexts[j]), err == nil, cwant[j])
+						}
+						mu.Unlock()
 					}
 				}
 			}
